@@ -375,6 +375,9 @@ def part_a(c, rng, obs, budget, graph=None):
 
 
 # ---------------------------------------------------------------- part B/C/D
+TIME_PARSING_FNS = {"time", "timel", "dateformat", "formatdate"}
+
+
 def pf_case(rng, fn):
     n = rng.choice([0, 0, 1, 1, 2, 3, 4, 6])
     args = [rng.choice(VALUES) for _ in range(n)]
@@ -382,6 +385,11 @@ def pf_case(rng, fn):
         args[rng.randrange(len(args))] = rng.choice(["k=v", "1=x", "lang=en", "a = b "])
     if n == 0:
         return "{{" + fn + rng.choice(["", ":", ": "]) + "}}"
+    if fn.lstrip("#").lower() in TIME_PARSING_FNS:
+        # the date parser behind these functions is a third-party library whose cost grows quadratically with the
+        # length of a junk argument (15 CPU-seconds for 5 000 digits, 4 for 1 000): the stated budget is for pages of
+        # at most 2 kB, so the huge values are cut to that size for this family
+        args = [a[:1500] for a in args]
     return "{{" + fn + ":" + "|".join(args) + "}}"
 
 
